@@ -54,7 +54,49 @@ def within_ulps(a, b, ty, ulps):
             return False
     return True
 
-def run(driver, case_file, max_report=10):
+def shrink_abufs(driver, exe, request):
+    """delta-debug an `abufs` operation sequence on which model and implementation disagree: drop operations while
+    they still disagree (every sequence is a valid input of both)"""
+    toks = request.split(" ")
+    if len(toks) != 3 or not exe:
+        return None
+    size, ops = toks[1], toks[2].split(";")
+
+    def differ(ops):
+        if not ops:
+            return None
+        req = "abufs %s %s" % (size, ";".join(ops))
+        try:
+            m = subprocess.run([driver], input=req + "\n", stdout=subprocess.PIPE, text=True, timeout=60).stdout.strip()
+            i = subprocess.run([exe, "abufs", size, ";".join(ops)], stdout=subprocess.PIPE, stderr=subprocess.DEVNULL, text=True, timeout=60).stdout.strip()
+        except Exception:
+            return None
+        return (req, i, m) if (m != i and m.startswith("ok") and i.startswith("ok")) else None
+
+    best = differ(ops)
+    if not best:
+        return None
+    n = 2
+    steps = 0
+    while len(ops) >= 2 and steps < 400:
+        chunk = max(1, len(ops) // n)
+        reduced = False
+        for start in range(0, len(ops), chunk):
+            cand = ops[:start] + ops[start + chunk:]
+            steps += 1
+            d = differ(cand)
+            if d:
+                ops, best, reduced = cand, d, True
+                n = max(n - 1, 2)
+                break
+        if not reduced:
+            if chunk == 1:
+                break
+            n = min(len(ops), n * 2)
+    return {"request": best[0], "implementation": best[1], "model": best[2], "shrink_steps": steps}
+
+
+def run(driver, case_file, max_report=10, exe=None):
     reqs, exps = [], []
     for line in open(case_file):
         line = line.rstrip("\n")
@@ -96,6 +138,13 @@ def run(driver, case_file, max_report=10):
                 disagreements.append({"request": r[:2000], "implementation": e[:1000], "model": got[:1000]})
             else:
                 disagreements.append(None)
+    for d in disagreements[:2]:
+        if d and d["request"].startswith("abufs "):
+            # the stored request may be truncated: shrink from the full line
+            full = next((r for r in reqs if r.startswith(d["request"][:1990])), d["request"])
+            sm = shrink_abufs(driver, exe, full)
+            if sm:
+                d["minimised"] = sm
     return {"cases": n, "disagreements": [d for d in disagreements if d], "n_disagreements": len(disagreements),
             "histogram": hist, "driver_rc": p.returncode, "driver_stderr": p.stderr[-300:],
             "samples": [{"request": reqs[i][:300], "answer": exps[i][:200]} for i in range(1, min(len(reqs), 400), 97)][:4]}
